@@ -150,6 +150,10 @@ def _parse_block(lines: list[str]):
         elif word == "subst":
             a, _, b = rest.partition("=>")
             d["subst"].append((a.strip(), b.strip()))
+        elif word == "substws":
+            # like subst, but the source text is matched modulo whitespace (for constructs that span several source lines)
+            a, _, b = rest.partition("=>")
+            d["subst"].append(("\x00ws" + a.strip(), b.strip()))
         elif word == "novac":
             d["novac"] = True
         elif word == "nosafety":
@@ -293,6 +297,14 @@ def generate(template_path: str, snapshot: str, exclude: dict | None = None) -> 
                         + d.get("wrapper_post", "") + "\n    }")
                 d["fragment"] = None
         for (x, y) in d["subst"]:
+            if x.startswith("\x00ws"):
+                x = x[3:]
+                rx = r"\s*".join(re.escape(tk) for tk in x.split())
+                if not re.search(rx, text):
+                    raise ExtractError(f"{file} | {item}: anchor lost: substitution source `{x}` not present (modulo whitespace)")
+                text = re.sub(rx, lambda _m: y, text)
+                substs.append(f"{file} | {item}: `{x}` (modulo whitespace) => `{y}`")
+                continue
             if x not in text:
                 raise ExtractError(f"{file} | {item}: anchor lost: substitution source `{x}` not present")
             text = text.replace(x, y)
